@@ -50,11 +50,20 @@ def main(tier, seed):
     # (iv) document highlights are ranges of the queried file only
     from . import hlk
     hlk.part(chk, tier, jobs)
+    # (v) native layer: the ranges in every answer of the public API on enumerated workspaces
+    from . import rangek
+    orc = native.Oracle(native.build('oracle-ide'))
+    try:
+        rangek.part(chk, orc, 24 if tier == 'quick' else None)
+    finally:
+        orc.close()
     chk.assumptions += synrun.SYN_ASSUMPTIONS + [
+        'native layer (executed, not a solver verdict): on 24 (quick) / all 128 z3-enumerated namings of the six-module workspace template of C06, every file prefixed with a comment line of 2-, 3- and 4-byte characters, every range of every answer '
+        '(definition targets with focus inside full range, references, highlights, hover, prepare-rename, diagnostics, semantic highlights) names a file of the workspace, lies inside it, starts and ends on character boundaries, and name-like results cover a whole identifier token',
         'kernel claim: only ranges produced by the parser (syntax errors) and the offset->position conversion of outgoing ranges are decided; '
         'ranges computed by ide queries (navigation targets, references, rename edits, completion source ranges, highlights) need the salsa database and rowan cursors and are outside the claim']
     chk.trusted += synrun.SYN_TRUSTED
-    return chk.finish({'unrealisable_counterexamples': chk.extra.get('unrealisable', 0)})
+    return chk.finish({'unrealisable_counterexamples': chk.extra.get('unrealisable', 0), 'native_oracle': chk.extra.get('ranges', {})})
 
 
 def doc_ctx_factory(k, prefix_raw):
@@ -64,6 +73,14 @@ def doc_ctx_factory(k, prefix_raw):
 
 def replay(path):
     d = json.load(open(path))
+    if d.get('cex', {}).get('kind') == 'workspace-ranges':
+        from . import rangek
+        orc = native.Oracle(native.build('oracle-ide'))
+        ws = rangek.workspace(d['cex']['names'])
+        r = orc.ask('answers', json.dumps(ws)); orc.close()
+        probs = rangek.check(ws, r.get('dump', {})) if isinstance(r, dict) else [str(r)]
+        print(json.dumps({'problems': probs[:5]}, indent=1))
+        return 1 if probs else 0
     syn.load('dev', log=lambda m: None)
     oracle = native.Oracle(syn.ORACLE_BIN)
     nv = synrun.native_verdict(oracle, d['cex']['text'])
